@@ -350,6 +350,8 @@ def random_instance(rnd, family, stable=False):
         inst['extra_loads'] = {i: {k: l2[k] for k in ('c0', 'c1', 'c2', 'c3')}}
     if rnd.random() < 0.3:
         inst['numpy'] = True                   # the load function (and a stop threshold) hold numpy scalars, as in the documentation's examples
+    if rnd.random() < 0.2:
+        inst['load_unit_cycle'] = rnd.sample(['Nm', 'mNm', 'kgfcm', 'mNmm', 'kNm', 'gfm'], rnd.randint(2, 3))     # the load answers in changing torque units
     n1 = rnd.randint(3, 30)
     w_out = float(elems[0]['w0']) / float(ratio_prod(elems))
     init_spd = rnd.choice([F(0), F(0), sig(w_out * rnd.uniform(-1.2, 1.2))])
